@@ -31,6 +31,10 @@ abbrev R := Except Err
 structure Cfg where
   cplx : Expr → Bool
   vecCplx : List Expr → Bool
+  /-- `true` = the code as it is: the hash-equality shortcut of the comparison operators also fires when both
+      operands are `top` (two opaque values that render alike).  `false` is a diagnostic variant used by the
+      harness to attribute a wrong constant to that shortcut. -/
+  topHashEq : Bool := true
 
 /-- keyword arguments of `simplify`. -/
 structure Opts where
@@ -232,11 +236,6 @@ def setPart (gi : Expr → Nat → Nat → R Expr) (sta sto : Nat) (v : Expr) (p
   match findKey sta sto parts with
   | some _ => .ok (assignKey sta sto v parts)
   | none => cutLoop gi sta sto (overlapping sta sto parts) (parts ++ [(sta, sto, v)])
-
-/-- the in-place `x.sf = False` seen through a node `(x op r)` that holds the constant `x` as left operand -/
-def clearLeftSf : Expr → Expr
-  | .op to (.cst tv ts _) tr tsz tsf tp => .op to (.cst tv ts false) tr tsz tsf tp
-  | e => e
 
 /-- the high part appended by `extend`: `tst(sb, cst(-1,xt), cst(0,xt))` with `sf = True`, or `cst(0,xt)` -/
 def extFill (sign : Bool) (sb : Expr) (xt : Nat) : Expr :=
@@ -535,7 +534,6 @@ def eqn2snd : Nat → Opts → Op → Expr → Nat → Nat → Bool → Nat → 
   | 0, _, _, _, _, _, _, _, _, _ => .error .fuel
   | fuel + 1, opts, o, l, rv, rs, rf, size, sf, prop =>
     let r := Expr.cst rv rs rf
-    let value := cstValue rv rs rf
     match l with
     | .op lo ll lr _ _ _ =>
         match Op.pm o lo with
@@ -546,9 +544,9 @@ def eqn2snd : Nat → Opts → Op → Expr → Nat → Nat → Bool → Nat → 
             else return .op o l r size sf prop
         | none =>
             if rs == 1 && o == Op.eq then
-              if value = 1 then return l else apiNot fuel l
+              if rv == 1 then return l else apiNot fuel l
             else if rs == 1 && o == Op.neq then
-              if value = 1 then apiNot fuel l else return l
+              if rv == 1 then apiNot fuel l else return l
             else eqn2tail fuel opts o l r size sf prop
     | .uop lo lr _ _ _ =>
         match Op.pm o lo with
@@ -559,9 +557,9 @@ def eqn2snd : Nat → Opts → Op → Expr → Nat → Nat → Bool → Nat → 
             else return .op o l r size sf prop
         | none =>
             if rs == 1 && o == Op.eq then
-              if value = 1 then return l else apiNot fuel l
+              if rv == 1 then return l else apiNot fuel l
             else if rs == 1 && o == Op.neq then
-              if value = 1 then apiNot fuel l else return l
+              if rv == 1 then apiNot fuel l else return l
             else eqn2tail fuel opts o l r size sf prop
     | .ptr .. =>
         if o == Op.sub || o == Op.add then throw .unmodelled
@@ -646,16 +644,16 @@ def apiExp : Nat → Op → Expr → Expr → R Expr
   | 0, _, _, _ => .error .fuel
   | fuel + 1, o, l, r =>
     match o with
-    | .eq | .le | .ge => if hashEq l r then .ok bit1 else oper fuel o l r
-    | .neq | .lt | .gt => if hashEq l r then .ok bit0 else oper fuel o l r
+    | .eq | .le | .ge => if hashEq l r && (cfg.topHashEq || l.isDef) then .ok bit1 else oper fuel o l r
+    | .neq | .lt | .gt => if hashEq l r && (cfg.topHashEq || l.isDef) then .ok bit0 else oper fuel o l r
     | _ => oper fuel o l r
 
 /-- `_operator.__call__(l, r)` of a binary operator -/
 def callOp : Nat → Op → Expr → Expr → R Expr
   | 0, _, _, _ => .error .fuel
   | fuel + 1, o, l, r =>
-    let l := if o.unsignedCall then l.setSf false else l
-    let r := if o.unsignedCall then r.setSf false else r
+    -- (the unchanged tree clears `l.sf`/`r.sf` in place here for the logic operators and `<.` `>=.`;
+    --  the repaired code leaves the operand objects alone)
     match o with
     | .ltu | .geu => helperCmp fuel o l r
     | .ror | .rol => helperRot fuel o l r
@@ -680,7 +678,9 @@ def helperCmp : Nat → Op → Expr → Expr → R Expr
       api fuel (if o == Op.ltu then Op.lt else Op.ge) (x.setSf false) (y.setSf false)
     else mkOp o x y
 
-/-- `ror(x, n)` / `rol(x, n)` (with the repaired constant case: amount reduced modulo the width) -/
+/-- `ror(x, n)` / `rol(x, n)` (repaired: constants are rotated with the amount reduced modulo the width;
+    anything else stays an `op` node — the unchanged tree expands `x >> n | x << (x.size - n)` for a constant
+    `x`, computing `x.size - n` in the width of `n`) -/
 def helperRot : Nat → Op → Expr → Expr → R Expr
   | 0, _, _, _ => .error .fuel
   | fuel + 1, o, x, n =>
@@ -695,19 +695,6 @@ def helperRot : Nat → Op → Expr → Expr → R Expr
         let t1 ← api fuel Op.lsl x (mkCst (m : Int) x.size)
         let t2 ← api fuel Op.lsr x (mkCst ((x.size - m : Nat) : Int) x.size)
         api fuel Op.or t1 t2
-    else if x.isCst then
-      -- `x >> n | x << (x.size - n)`; `x >> …` clears `x.sf` in place
-      if o == Op.ror then do
-        let t1 ← api fuel Op.lsr x n
-        let k ← api fuel Op.sub (mkCst (x.size : Int) n.size) n
-        let t2 ← api fuel Op.lsl (x.setSf false) k
-        api fuel Op.or t1 t2
-      else do
-        let t1 ← api fuel Op.lsl x n
-        let k ← api fuel Op.sub (mkCst (x.size : Int) n.size) n
-        let t2 ← api fuel Op.lsr x k
-        -- for `rol` the node `x << n` built first still holds the object `x` as its left operand
-        api fuel Op.or (clearLeftSf t1) t2
     else mkOp o x n
 
 /-- `x[start:stop]` -/
